@@ -165,6 +165,20 @@ def rec_pairs(seed):
                     ti = am.to_image((h, w))
                     wsum.append(np.nan if ti is None else float(ti[~mm].sum() if mm is not None else ti.sum()))
                 pair('area_overlap_is_sum_of_weights_over_counted_pixels', np.atleast_1d(apx.area_overlap(d, mask=mm, method=method, subpixels=sub)) * 256.0, np.array(wsum) * 256.0, tol=2)      # compared at 2^-17
+        # a circle that only grazes the corners of four pixels: their weights are positive (~1e-9 .. 1e-8), so they count - with a huge
+        # value their contribution is visible, with a NaN the sum is NaN
+        if h >= 9 and w >= 9 and seed % 2 == 0:
+            cpx, cpy = w // 2, h // 2
+            apg = A.CircularAperture((float(cpx), float(cpy)), float(np.hypot(2.5, 2.5)) + [3e-5, 1e-5, 6e-5][seed % 3])
+            wimg = apg.to_mask(method='exact').to_image((h, w))
+            tiny = (wimg > 0) & (wimg < 1e-6)
+            if tiny.any():
+                dg = np.ones((h, w)); dg[tiny] = 2.0 ** 62
+                pair('pixels_with_tiny_positive_weight_are_counted', apg.do_photometry(dg, method='exact')[0] / 2.0 ** 32, [float((wimg * dg).sum()) / 2.0 ** 32], tol=8)
+                tg = A.aperture_photometry(NDData(dg), apg)
+                pair('pixels_with_tiny_positive_weight_are_counted', np.asarray(tg['aperture_sum']) / 2.0 ** 32, [float((wimg * dg).sum()) / 2.0 ** 32], tol=8)
+                dn = np.ones((h, w)); ys_, xs_ = np.nonzero(tiny); dn[ys_[0], xs_[0]] = np.nan
+                pair('pixels_with_tiny_positive_weight_are_counted', apg.do_photometry(dn, method='exact')[0], [np.nan])
         # one aperture object used repeatedly with different masks gives what fresh objects give
         ap_r = mk(pos)
         m_a = np.zeros((h, w), dtype=bool); m_a[::2, ::3] = True
